@@ -359,14 +359,18 @@ func inpFirstLines(s string, n int) string {
 func inpPanicSite(s string) string {
 	for _, l := range strings.Split(s, "\n") {
 		l = strings.TrimSpace(l)
-		if strings.HasPrefix(l, "/") && strings.Contains(l, "ZanRedisDB/") && !strings.Contains(l, "verif") {
-			if i := strings.Index(l, "ZanRedisDB/"); i >= 0 {
-				l = l[i+len("ZanRedisDB/"):]
+		if strings.HasPrefix(l, "/") && strings.Contains(l, ".go:") && !strings.Contains(l, "/verif") &&
+			!strings.Contains(l, "/go/src/") && !strings.Contains(l, "/usr/") && !strings.Contains(l, "/runtime/") {
+			// the first frame inside the repository (its working tree is the module root)
+			for _, pkg := range []string{"/node/", "/rockredis/", "/server/", "/common/", "/engine/", "/raft/", "/cluster/"} {
+				if i := strings.LastIndex(l, pkg); i >= 0 {
+					l = l[i+1:]
+					if j := strings.Index(l, " "); j > 0 {
+						l = l[:j]
+					}
+					return l
+				}
 			}
-			if j := strings.Index(l, " "); j > 0 {
-				l = l[:j]
-			}
-			return l
 		}
 	}
 	return "?"
@@ -527,11 +531,23 @@ func inpPopulate(rng *rand.Rand) [][]string {
 	}
 	// random prior state: a random subset, random extras, some expiries
 	var out [][]string
-	for _, c := range cmds {
-		if rng.Intn(6) != 0 {
-			out = append(out, c)
+	if rng.Intn(2) == 0 {
+		// collections beyond 128 elements (length metrics, large-collection bookkeeping)
+		big := map[string][]string{"hmset": {K("hsA2")}, "sadd": {K("stA2")}, "zadd": {K("zsA2")}, "rpush": {K("lsA2")}}
+		for i := 0; i < 135; i++ {
+			e := fmt.Sprintf("e%03d", i)
+			big["hmset"] = append(big["hmset"], e, "v")
+			big["sadd"] = append(big["sadd"], e)
+			big["zadd"] = append(big["zadd"], strconv.Itoa(i), e)
+			big["rpush"] = append(big["rpush"], e)
+		}
+		for _, n := range []string{"hmset", "sadd", "zadd", "rpush"} {
+			cmds = append(cmds, append([]string{n}, big[n]...))
 		}
 	}
+	// the base objects always exist (mutations of a command need its valid instance to be
+	// meaningful on the prior state); what varies by seed is their extra content and expiries
+	out = append(out, cmds...)
 	for i := 0; i < 6; i++ {
 		switch rng.Intn(6) {
 		case 0:
@@ -551,8 +567,30 @@ func inpPopulate(rng *rand.Rand) [][]string {
 	return out
 }
 
+// inpBaseOf returns the populate command that (re-)creates the base content of a pool key.
+func inpBaseOf(key string) ([]string, bool) {
+	K := inpK
+	for _, c := range [][]string{
+		{"hmset", K("hsA1"), "f1", "1", "f2", "b"}, {"rpush", K("lsA1"), "a", "b"}, {"sadd", K("stA1"), "m1", "m2", "m3"},
+		{"zadd", K("zsA1"), "1", "m1", "2", "m2", "3", "m3"}, {"set", K("kvA2"), "hello"}, {"set", K("kvA1"), "10"},
+	} {
+		if c[1] == key {
+			return c, true
+		}
+	}
+	return nil, false
+}
+
+// multi-element writes: commands that buffer one element after the other
+var inpMultiElem = map[string]bool{"hmset": true, "plset": true, "sadd": true, "srem": true, "lpush": true, "rpush": true,
+	"zadd": true, "zrem": true, "hdel": true, "pfadd": true, "json.arrappend": true, "geoadd": true, "del": true}
+
+var inpBig = strings.Repeat("B", 8*1024*1024+1)
+
 var inpNumRepl = []string{"notnum", "", "99999999999999999999", "-1", "-9223372036854775808", "9223372036854775807",
-	"1e400", "nan", "0", "4294967296", "2147483648", "+inf", "-inf", "1.5", " 1", "0x10", "(", "[", "1e3"}
+	"1e400", "nan", "0", "4294967296", "2147483648", "+inf", "-inf", "1.5", " 1", "0x10", "(", "[", "1e3",
+	// error-message-like text: apply-side error classification works on message strings
+	"No space left on device", "IO error: No space left on device", "Corruption: bad block"}
 
 type inpVec struct {
 	name string
@@ -617,10 +655,17 @@ func inpMutations(name string, valid []string, rng *rand.Rand, huge bool) []inpV
 			add(fmt.Sprintf("opt%d", i), a)
 		}
 	}
+	// a value over the 8 MiB limit in the LAST position of a multi-element command (the handler
+	// has buffered the valid leading elements when it meets it)
+	if len(valid) >= 3 && inpMultiElem[name] {
+		a := cp()
+		a[len(a)-1] = inpBig
+		add("biglast", a)
+	}
 	// key shapes
 	keyShapes := []string{inpNS + ":ta:", inpNS + ":ta", inpNS + ":", inpNS, "", "kvA1", "nons:ta:kvA1", ":ta:kvA1",
 		inpNS + ":ta:" + strings.Repeat("K", 10241), inpNS + ":ta:" + strings.Repeat("k", 1100), inpNS + ":ta:\x00\xff\r\n",
-		inpNS + "::kvA1", inpNS + ":" + strings.Repeat("T", 300) + ":kvA1", inpNS + ":ta:kvA1:x:y", inpNS + ":ta:wrongtype"}
+		inpNS + "::kvA1", inpNS + ":" + strings.Repeat("T", 300) + ":kvA1", inpNS + ":\xff\xfe:kvA1", inpNS + ":ta:kvA1:x:y", inpNS + ":ta:wrongtype"}
 	for _, ks := range keyShapes {
 		if len(valid) == 0 {
 			break
@@ -641,6 +686,41 @@ func inpMutations(name string, valid []string, rng *rand.Rand, huge bool) []inpV
 	}
 	_ = rng
 	return out
+}
+
+// inpKnownTrigger names the recorded finding a vector is a trigger of ("" if none).  The
+// general corpus leaves these vectors out (avoid); the isolate stages send exactly them.
+func inpKnownTrigger(args []string) string {
+	if len(args) == 0 {
+		return ""
+	}
+	name := strings.ToLower(args[0])
+	for _, a := range args[1:] {
+		if strings.HasPrefix(a, inpNS+":") {
+			rest := a[len(inpNS)+1:]
+			if i := strings.Index(rest, ":"); i >= 0 {
+				rest = rest[:i]
+			}
+			if strings.ToValidUTF8(rest, "") != rest {
+				return "C11-nonutf8-table-metric-label"
+			}
+		}
+	}
+	switch name {
+	case "setbit", "setbitv2":
+		if len(args) >= 2 && strings.HasPrefix(args[1], inpNS+":") && strings.HasSuffix(args[1], ":") {
+			return "C11-bitset-empty-key-partial"
+		}
+	case "json.arrappend", "json.set", "json.del", "json.arrpop":
+		if len(args) >= 3 {
+			for _, c := range strings.Split(args[2], ".") {
+				if n, err := strconv.ParseInt(c, 10, 64); err == nil && n >= 100000 {
+					return "C11-json-huge-index"
+				}
+			}
+		}
+	}
+	return ""
 }
 
 // ---------------------------------------------------------------- attribution of raw keys
@@ -690,6 +770,9 @@ func inpForeign(changed []string, addressed []string, known []string) []string {
 		}
 		own := false
 		for _, a := range addressed {
+			if len(a) > 7 {
+				a = a[:7] // memcmp-encoded keys are stored in groups of 8 bytes with a marker byte in between
+			}
 			if a != "" && strings.Contains(raw, a) {
 				own = true
 				break
@@ -738,6 +821,12 @@ type inpDrv struct {
 	perCmd   map[string]map[string]int
 	distinct map[string]bool
 	lastClass string
+	recent    [][]string // the last vectors sent (a death may be noticed one command late)
+	recentRaw [][]string
+	noreply   map[string]int
+	holdEmit  bool
+	held      trace.M
+	lastReply string
 }
 
 func (d *inpDrv) emitCmd(pathName string, v inpVec, cls, r string, pre, post map[string]string, want string, probe bool, tw, rt string) {
@@ -758,10 +847,17 @@ func (d *inpDrv) emitCmd(pathName string, v inpVec, cls, r string, pre, post map
 	}
 	d.seq++
 	ev := trace.M{"ev": "cmd", "seq": d.seq, "path": pathName, "name": v.name, "mut": v.mut, "rw": rwk, "cls": cls, "r": r,
-		"pre": detDigest(pre), "dg": detDigest(post), "nchg": len(ch), "foreign": foreign, "want": want, "probe": probe,
-		"tw": tw, "rt": rt, "argc": len(v.args)}
-	d.tw.Emit(ev)
+		"pre": detDigest(pre), "dg": detDigest(post), "nchg": len(ch), "chg": inpHead(ch, 4), "foreign": foreign, "want": want, "probe": probe,
+		"tw": tw, "rt": rt, "argc": len(v.args), "trig": inpKnownTrigger(v.args)}
 	d.lastClass = cls
+	d.lastReply = r
+	if d.holdEmit {
+		// a probe whose failure looks environmental (proposal timed out on an overloaded
+		// machine) is repeated once; only the final attempt is logged
+		d.held = ev
+		return
+	}
+	d.tw.Emit(ev)
 	d.stats["cmd_"+pathName]++
 	d.stats["cls_"+cls]++
 	if d.perCmd[v.name] == nil {
@@ -779,6 +875,20 @@ func (d *inpDrv) emitCmd(pathName string, v inpVec, cls, r string, pre, post map
 	if len(d.samples) < 6 && v.mut != "valid" && !probe && (cls == "err" || d.seq%37 == 0) {
 		d.samples = append(d.samples, trace.M{"path": pathName, "args": inpShow(v.args), "cls": cls, "reply": r, "changed_raw_keys": len(ch)})
 	}
+}
+
+func inpHead(ss []string, n int) []string {
+	out := []string{}
+	for i, s := range ss {
+		if i >= n {
+			break
+		}
+		if len(s) > 80 {
+			s = s[:80]
+		}
+		out = append(out, s)
+	}
+	return out
 }
 
 func inpShow(args []string) []string {
@@ -836,7 +946,11 @@ func (d *inpDrv) send(v inpVec, want string, probe bool) bool {
 		d.conn = c
 	}
 	pre := d.last
-	r, err := d.conn.do(v.args, 8*time.Second)
+	dl := 8 * time.Second
+	if k := d.rw[v.name]; k == "r" {
+		dl = 3 * time.Second
+	}
+	r, err := d.conn.do(v.args, dl)
 	cls := "ok"
 	if err != nil {
 		// no reply: the connection was closed by the server (recovered panic on the connection
@@ -847,10 +961,20 @@ func (d *inpDrv) send(v inpVec, want string, probe bool) bool {
 		if !d.p.alive() {
 			return d.gone(v, "")
 		}
-		c2, err2 := inpDial(d.p.port)
-		if err2 == nil {
-			_, err2 = c2.do([]string{"ping"}, 4*time.Second)
-			c2.c.Close()
+		// liveness: a few patient pings (the machine may be overloaded; wall-clock time-outs of
+		// real processes must not become verdicts lightly)
+		var err2 error
+		for try := 0; try < 4; try++ {
+			var c2 *inpConn
+			c2, err2 = inpDial(d.p.port)
+			if err2 == nil {
+				_, err2 = c2.do([]string{"ping"}, 6*time.Second)
+				c2.c.Close()
+			}
+			if err2 == nil || !d.p.alive() {
+				break
+			}
+			time.Sleep(time.Second)
 		}
 		if err2 != nil {
 			if !d.p.alive() {
@@ -863,8 +987,20 @@ func (d *inpDrv) send(v inpVec, want string, probe bool) bool {
 		if strings.Contains(err.Error(), "EOF") || strings.Contains(err.Error(), "reset") {
 			cls = "closed"
 		}
-	} else if strings.HasPrefix(r, "e:") {
-		cls = "err"
+	} else {
+		if strings.HasPrefix(r, "e:") {
+			cls = "err"
+		}
+		// one connection per command: an error text may echo raw client bytes (CR LF included)
+		// and PLSET answers with one status line per key, either leaves unread bytes in the stream
+		d.conn.c.Close()
+		d.conn = nil
+	}
+	d.recent = append(d.recent, inpShow(v.args))
+	d.recentRaw = append(d.recentRaw, v.args)
+	if len(d.recent) > 3 {
+		d.recent = d.recent[1:]
+		d.recentRaw = d.recentRaw[1:]
 	}
 	post := d.p.dump()
 	if post == nil {
@@ -897,9 +1033,16 @@ func (d *inpDrv) gone(v inpVec, how string) bool {
 		}
 	}
 	d.seq++
-	d.tw.Emit(trace.M{"ev": ev, "seq": d.seq, "path": "client", "name": v.name, "mut": v.mut, "args": inpShow(v.args), "cause": cause})
+	trig := inpKnownTrigger(v.args)
+	for i := len(d.recentRaw) - 1; i >= 0 && trig == ""; i-- {
+		trig = inpKnownTrigger(d.recentRaw[i])
+	}
+	d.tw.Emit(trace.M{"ev": ev, "seq": d.seq, "path": "client", "name": v.name, "mut": v.mut, "args": inpShow(v.args), "cause": cause,
+		"prev": d.recent, "trig": trig})
 	d.stats[ev]++
-	d.fatal = append(d.fatal, map[string]interface{}{"ev": ev, "args": inpShow(v.args), "cause": cause})
+	d.fatal = append(d.fatal, map[string]interface{}{"ev": ev, "args": inpShow(v.args), "cause": cause, "prev": d.recent})
+	d.recent = nil
+	d.recentRaw = nil
 	d.collectAccepted(true)
 	d.p.kill()
 	d.deaths++
@@ -961,7 +1104,27 @@ func (d *inpDrv) probe() bool {
 	for i, a := range p.args {
 		args[i] = strings.Replace(a, "%K", inpNS+":pt:"+name, 1)
 	}
-	return d.send(inpVec{name: args[0], mut: "valid", args: args}, p.want, true)
+	v := inpVec{name: args[0], mut: "valid", args: args}
+	d.holdEmit, d.held = true, nil
+	ok := d.send(v, p.want, true)
+	d.holdEmit = false
+	if !ok {
+		return false
+	}
+	lr := strings.ToLower(d.lastReply)
+	if d.lastClass != "ok" && (strings.Contains(lr, "timeout") || strings.Contains(lr, "time out") || strings.Contains(lr, "timed out") || strings.Contains(lr, "cancel")) {
+		d.stats["probe_retries"]++
+		time.Sleep(2 * time.Second)
+		if m := d.p.dump(); m != nil {
+			d.last = m
+		}
+		return d.send(v, p.want, true)
+	}
+	if d.held != nil {
+		d.tw.Emit(d.held)
+		d.stats["cmd_client"]++
+	}
+	return true
 }
 
 func inputsim(args []string) error {
@@ -978,6 +1141,7 @@ func inputsim(args []string) error {
 	memMB := fs.Int("mem", 3000, "address-space limit of the child in MB (ulimit -v)")
 	isolate := fs.String("isolate", "", "isolate stage: huge-json-index | nonutf8-table | batch-abort")
 	group := fs.Int("group", 1, "path 2: vectors per apply group")
+	vecs := fs.String("vecs", "", "isolate=vecs: JSON list of vectors (lists of strings, \\xNN escapes allowed) sent in this order")
 	fs.Parse(args)
 	if *mode == "child" {
 		return inpChild(*dir, *port, *eng, *policy)
@@ -1017,38 +1181,108 @@ func inputsim(args []string) error {
 	var plan []inpVec
 	switch *isolate {
 	case "":
-		// sample the budget, but keep at least a few per command
-		perm := rng.Perm(len(all))
-		if *budget >= len(all) {
-			plan = all
-		} else {
-			for _, i := range perm[:*budget] {
-				plan = append(plan, all[i])
+		// every arity mutation of every command is always sent (they are what the two layers
+		// most often disagree about); the budget samples the value/key/option mutations
+		var rest []inpVec
+		for _, v := range all {
+			always := v.mut == "valid" || v.mut == "noargs" || strings.HasPrefix(v.mut, "drop") || v.mut == "append1" || v.mut == "append2"
+			// over-long sub-keys in write commands: the handler may have buffered the valid
+			// leading elements when it meets the bad one (error path with a non-empty write batch)
+			if k := d.rw[v.name]; (k == "w" || k == "mw") && strings.HasPrefix(v.mut, "sub") && strings.Contains(v.mut, `="SSSSSS`) {
+				always = true
+			}
+			if k := d.rw[v.name]; (k == "w" || k == "mw") && v.mut == "biglast" {
+				always = true
+			}
+			if k := d.rw[v.name]; k == "r" && v.mut == "biglast" {
+				continue // 8 MiB arguments to read commands: cost without a store to damage
+			}
+			if always {
+				plan = append(plan, v)
+			} else {
+				rest = append(rest, v)
 			}
 		}
+		d.stats["arity_mutations"] = len(plan)
+		perm := rng.Perm(len(rest))
+		if *budget < len(rest) {
+			perm = perm[:*budget]
+		}
+		for _, i := range perm {
+			plan = append(plan, rest[i])
+		}
+		rng.Shuffle(len(plan), func(i, j int) { plan[i], plan[j] = plan[j], plan[i] })
+		// "last element" states: pops on single-element collections; path 2 applies every accepted
+		// vector twice, so the second pop meets the collection the first one emptied (two clients
+		// that both passed the leader's non-empty pre-check)
+		K := inpK
+		var last []inpVec
+		for _, c := range [][]string{{"sadd", K("stS1"), "only"}, {"spop", K("stS1")}, {"rpush", K("lsS1"), "only"}, {"lpop", K("lsS1")},
+			{"rpush", K("lsS1"), "only"}, {"rpop", K("lsS1")}, {"zadd", K("zsS1"), "1", "only"}, {"zrem", K("zsS1"), "only"},
+			{"hset", K("hsS1"), "only", "v"}, {"hdel", K("hsS1"), "only"}} {
+			last = append(last, inpVec{name: c[0], mut: "last-element", args: c})
+		}
+		plan = append(last, plan...)
 	case "huge-json-index":
 		plan = []inpVec{{name: "json.arrappend", mut: "num1=999999999", args: []string{"json.arrappend", inpK("jsA9"), "999999999", "1"}}}
 	case "nonutf8-table":
 		for i := 0; i < 135; i++ {
 			plan = append(plan, inpVec{name: "hset", mut: "nonutf8-table", args: []string{"hset", inpNS + ":\xff:hsB1", fmt.Sprintf("f%03d", i), "v"}})
 		}
+	case "vecs":
+		var vv [][]string
+		if err := json.Unmarshal([]byte(*vecs), &vv); err != nil {
+			return err
+		}
+		for _, v := range vv {
+			for i := range v {
+				if u, err := strconv.Unquote(`"` + strings.Replace(v[i], `"`, `\"`, -1) + `"`); err == nil {
+					v[i] = u
+				}
+			}
+			if len(v) > 0 {
+				plan = append(plan, inpVec{name: strings.ToLower(v[0]), mut: "isolate", args: v})
+			}
+		}
 	case "batch-abort":
 		plan = []inpVec{{name: "setex", mut: "num1=notnum", args: []string{"setex", inpK("kvA3"), "notnum", "v"}},
 			{name: "setex", mut: "num1=0", args: []string{"setex", inpK("kvA3"), "0", "v"}}}
 	}
+	d.noreply = map[string]int{}
 	for _, v := range plan {
+		if *isolate == "" && inpKnownTrigger(v.args) != "" {
+			d.stats["avoided_known_triggers"]++
+			continue
+		}
+		if d.noreply[v.name] >= 2 {
+			d.stats["skipped_after_repeated_noreply"]++
+			continue
+		}
 		if d.p == nil || !d.p.alive() {
 			if err := d.startChild(); err != nil {
 				return err
 			}
 		}
+		// a mutated multi-element write is only interesting if its valid leading elements exist:
+		// re-create the base object of the addressed key first
+		if k := d.rw[v.name]; (k == "w" || k == "mw") && (strings.HasPrefix(v.mut, "sub") || v.mut == "biglast") && len(v.args) > 1 {
+			if base, found := inpBaseOf(v.args[1]); found {
+				if !d.send(inpVec{name: base[0], mut: "valid", args: base}, "", false) {
+					d.p = nil
+					continue
+				}
+			}
+		}
 		ok := d.send(v, "", false)
 		if !ok {
 			d.p = nil
-			if d.deaths > 6 {
+			if d.deaths > 6 || *isolate != "" {
 				break
 			}
 			continue
+		}
+		if d.lastClass == "noreply" {
+			d.noreply[v.name]++
 		}
 		// after an erroring command: one valid command
 		if d.stats["cmd_client"] > 0 && (d.lastCls(v) != "ok") {
@@ -1108,6 +1342,15 @@ func inpKeyPartsLog(args []string) []string {
 	return out
 }
 
+// inpLogTrigger: inpKnownTrigger for a vector in log form (namespace already cut).
+func inpLogTrigger(v []string) string {
+	c := append([]string{}, v...)
+	if len(c) > 1 {
+		c[1] = inpNS + ":" + c[1]
+	}
+	return inpKnownTrigger(c)
+}
+
 func inpApplyPath(d *inpDrv, outp string, parts int, seed int64, group int, isolate string) map[string]int {
 	st := map[string]int{}
 	confs := [][2]string{{"pebble", "compact"}, {"mem", "local"}, {"mem", "compact"}, {"pebble", "local"}}
@@ -1160,6 +1403,25 @@ func inpApplySegment(d *inpDrv, eng, policy string, vecs [][]string, st map[stri
 	st["apply_segments"]++
 	base := time.Now().Add(-time.Hour).UnixNano()
 	pre, _ := main.rawDump(inpSkipRaw)
+	// "leader check on state S, apply on a later state S'": two clients may both pass the
+	// leader-side pre-check (SPOP/LPOP on the last element, SETNX, SETIFEQ, ...) before the first
+	// proposal is applied, so every accepted vector is applied twice in a row
+	var twice [][]string
+	for _, v := range vecs {
+		twice = append(twice, v)
+		if len(v) > 0 && len(v) < 64 {
+			big := false
+			for _, a := range v {
+				if len(a) > 1<<20 {
+					big = true
+				}
+			}
+			if !big {
+				twice = append(twice, v)
+			}
+		}
+	}
+	vecs = twice
 	for i, v := range vecs {
 		if len(v) == 0 {
 			continue
@@ -1211,8 +1473,8 @@ func inpApplySegment(d *inpDrv, eng, policy string, vecs [][]string, st map[stri
 		}
 		d.seq++
 		d.tw.Emit(trace.M{"ev": "cmd", "seq": d.seq, "path": "apply", "name": name, "mut": "accepted", "rw": "w", "cls": cls, "r": rr,
-			"pre": detDigest(pre), "dg": detDigest(post), "nchg": len(ch), "foreign": foreign, "want": "", "probe": false,
-			"tw": detDigest(td), "rt": rt, "argc": len(vec.args)})
+			"pre": detDigest(pre), "dg": detDigest(post), "nchg": len(ch), "chg": inpHead(ch, 4), "foreign": foreign, "want": "", "probe": false,
+			"tw": detDigest(td), "rt": rt, "argc": len(vec.args), "trig": inpLogTrigger(v)})
 		st["cmd_apply"]++
 		st["apply_cls_"+cls]++
 		pre = post
